@@ -1,4 +1,4 @@
-import EmsModel.Lemmas.DepthFloorSpec
+import EmsModel.Lemmas.DepthHyp
 /-!
 # C12 — ocean floor extraction returns the deepest valid value of every water column
 
@@ -70,6 +70,31 @@ structure Setting (kb : Bool) (ds : Dataset) (coords ns order ddims nsdims : Lis
   hns : dimsOf ds ns = some nsdims
   ready : FloorReady kb ddims ds
   hord : (∀ x ∈ order, x ∈ ddims) ∧ (∀ x ∈ ddims, x ∈ order)
+
+/-- `Setting`, decided: the driver evaluates this on the inputs of the correspondence run
+(`hyp` lines), so that one knows the theorems speak about them -/
+def settingB (kb : Bool) (ds : Dataset) (coords ns : List String) : Bool :=
+  match dimsOf ds coords, dimsOf ds ns with
+  | some ddims, some nsdims =>
+    validB ds coords && floorReadyB kb ddims ds
+      && ddims.all (fun d => !(nsdims.contains d)) && nsdims.all (fun x => decide (0 < ds.sz x))
+  | _, _ => false
+
+theorem settingB_sound (kb : Bool) (ds : Dataset) (coords ns : List String) (h : settingB kb ds coords ns = true) :
+    ∃ ddims nsdims, Setting kb ds coords ns ddims ddims nsdims
+      ∧ (∀ d ∈ ddims, d ∉ nsdims) ∧ (∀ x ∈ nsdims, 0 < ds.sz x) := by
+  unfold settingB at h
+  cases hd : dimsOf ds coords with
+  | none => simp [hd] at h
+  | some ddims =>
+    cases hn : dimsOf ds ns with
+    | none => simp [hd, hn] at h
+    | some nsdims =>
+      simp only [hd, hn, Bool.and_eq_true, List.all_eq_true, Bool.not_eq_true', List.contains_eq_mem,
+        decide_eq_false_iff_not, decide_eq_true_eq] at h
+      obtain ⟨⟨⟨h1, h2⟩, h3⟩, h4⟩ := h
+      exact ⟨ddims, nsdims, ⟨validB_sound ds coords h1, hd, hn, floorReadyB_sound kb ddims ds h2,
+        ⟨fun _ hx => hx, fun _ hx => hx⟩⟩, h3, h4⟩
 
 /-- the run of `ocean_floor`, unfolded -/
 theorem run_eq {kb : Bool} {ds : Dataset} {coords ns order ddims nsdims : List String}
